@@ -1180,10 +1180,15 @@ static void model_write(Thread* t, Loc& l, uint64_t val, int mo, bool rmw) {
     for (int i = 0; i < nm.nheads; ++i)
       if (nm.heads[i].tid == t->id)
         slot = i;
-    if (slot < 0)
+    if (slot < 0) {
       slot = nm.nheads++;
-    nm.heads[slot].tid = (uint8_t)t->id;
-    nm.heads[slot].vc = *own;
+      nm.heads[slot].tid = (uint8_t)t->id;
+      nm.heads[slot].vc = *own;
+    } else {
+      // the store also continues the thread's own earlier release sequence: keep the stronger of the two clocks
+      // (the release-fence clock can be older than the clock of the inherited release store)
+      vc_join(nm.heads[slot].vc, *own);
+    }
   }
   if (l.nmsg == KEEP) {
     l.first = (uint8_t)((l.first + 1) % KEEP);
